@@ -14,6 +14,13 @@ try:
 except ImportError:
     HOOK_COMMITS = []
 
+import subprocess
+try:
+    HOOK_COMMITS = subprocess.run(["git", "-C", "/repo", "log", "--format=%H %s", "--grep", "^verif hooks"],
+                                  capture_output=True, text=True).stdout.strip().split("\n")
+    HOOK_COMMITS = [h for h in reversed(HOOK_COMMITS) if h]
+except Exception:
+    pass
 ids = [json.loads(l)["id"] for l in open(os.path.join(ROOT, "properties.jsonl"))]
 checks = []
 for pid in ids:
